@@ -166,6 +166,15 @@ func c13(e *Env) {
 		}
 		c.read(w, pad, left)
 	}
+	// ---- texts that collide under CRC-32 / FNV-1a, read one after the other (hash-compare shortcuts in the reader)
+	for _, pr := range collidingPairs(e.Seed) {
+		for _, left := range []bool{false, true} {
+			for _, txt := range []string{pr[0], pr[1], pr[0]} {
+				w := ref.FixWrite(txt, 12, ' ', left)
+				c.read(w, ' ', left)
+			}
+		}
+	}
 	// ---- default wrappers and list variants
 	nw := e.N(10000, 200000)
 	var wrappers int64
@@ -275,7 +284,7 @@ func c13Messages(e *Env) {
 		lf := map[string]int{}
 		var evals int64
 		for ci := 0; ci < n; ci++ {
-			g := e.Gen(&gen.Opts{Arbitrary: true, NoNilBody: true}, "msg", t.QName, ci)
+			g := e.Gen(&gen.Opts{Arbitrary: true, NoNilBody: ci%3 != 0}, "msg", t.QName, ci)
 			// ---- read side
 			img := g.Wire(t)
 			rm, used, _, rerr := e.C.Decode(t, img, false)
